@@ -3,7 +3,6 @@ package main
 // C17: long-form DIDs.
 
 import (
-	"crypto/ed25519"
 	"crypto/sha256"
 	"encoding/json"
 	"fmt"
@@ -191,6 +190,19 @@ func genC17(seed int64, tier string) []caseOut {
 				addV("state-member-respelled:"+rp[1], ns+":"+b.suffix+":"+b64([]byte(alt)), false)
 			}
 		}
+		// a delta hash that is a well-formed multihash of the configured algorithm carrying only a prefix
+		// of the delta's digest (the suffix computed over that suffix data): such a state binds no delta
+		{
+			full := digest(18, jcs(b.request["delta"]))
+			for _, k := range []int{0, 1, 16, len(full) - 1} {
+				sd := M{}
+				for kk, vv := range b.request["suffixData"].(map[string]interface{}) {
+					sd[kk] = vv
+				}
+				sd["deltaHash"] = b64(multihash(18, full[:k]))
+				addV(fmt.Sprintf("delta-hash-digest-prefix-%d", k), ns+":"+modelHash(sd, 18)+":"+b64(jcs(M{"type": "create", "suffixData": sd, "delta": b.request["delta"]})), false)
+			}
+		}
 		// namespaces related by prefix, short form, foreign suffix
 		addV("namespace-longer", "did:ionx:"+b.suffix+":"+state, false)
 		addV("namespace-shorter", "did:io:"+b.suffix+":"+state, false)
@@ -311,18 +323,33 @@ func genC17(seed int64, tier string) []caseOut {
 			doc.Service = append(doc.Service, svc)
 			// also-known-as values, some in a spelling a URI normaliser would change: they come back as supplied
 			doc.AlsoKnownAs = [][]string{{"https://aka.example/me"}, {"HTTPS://Example.com/alice", "https://example.com/alice#"}, {"URN:uuid:6E8BC430-9C3A-11D9-9669-0800200C9A66", "https://example.com/josé"}}[i%3]
-			upd, rec := genKey(r, "Ed25519"), genKey(r, "Ed25519")
+			// update and recovery keys of every supported type (the first rounds: an EC update key with an
+			// Ed25519 recovery key, then the other way round): the keys supplied are the keys used
+			kindsU := []string{"P-256", "Ed25519", "P-384", "secp256k1", "Ed25519", "P-521"}
+			kindsR := []string{"Ed25519", "P-384", "P-256", "Ed25519", "Ed25519", "secp256k1"}
+			upd, rec := genKey(r, kindsU[i%6]), genKey(r, kindsR[i%6])
 			ids := map[string]bool{}
 			readOK, idOK := true, true
 			var first string
 			for rep := 0; rep < 12; rep++ {
-				res, e := vdr.Create(doc, vdrapi.WithOption(sidetreelongform.UpdatePublicKeyOpt, upd.ed.Public().(ed25519.PublicKey)),
-					vdrapi.WithOption(sidetreelongform.RecoveryPublicKeyOpt, rec.ed.Public().(ed25519.PublicKey)))
+				res, e := vdr.Create(doc, vdrapi.WithOption(sidetreelongform.UpdatePublicKeyOpt, upd.public()),
+					vdrapi.WithOption(sidetreelongform.RecoveryPublicKeyOpt, rec.public()))
 				if e != nil || res == nil || res.DIDDocument == nil {
 					readOK = false
 					continue
 				}
 				ids[res.DIDDocument.ID] = true
+				if segs := strings.Split(res.DIDDocument.ID, ":"); len(segs) >= 4 {
+					// the initial state commits to the keys that were supplied
+					var st struct {
+						Delta      struct{ UpdateCommitment string }
+						SuffixData struct{ RecoveryCommitment string }
+					}
+					if sb, e4 := b64dec(segs[len(segs)-1]); e4 != nil || json.Unmarshal(sb, &st) != nil ||
+						st.Delta.UpdateCommitment != commitmentOf(upd.jwk(), 18) || st.SuffixData.RecoveryCommitment != commitmentOf(rec.jwk(), 18) {
+						idOK = false
+					}
+				}
 				if rep == 0 {
 					first = res.DIDDocument.ID
 					rd, e2 := vdr.Read(first)
